@@ -23,8 +23,9 @@ S = Suite(
           "forcing ustar/z0/both/neither x build path dict/dataclass; histories on ONE MetConfig "
           "instance: every ordered pair of valid forcings (quick: 13 first stages x all 61), "
           "fields replaced in place and the configuration rebuilt, plus 3..5-stage walks and "
-          "walks through a rejected forcing; list lengths > 4 and non-list sequences are not "
-          "examined",
+          "walks through a rejected forcing; bldfm.cli.cmd_run on YAML files of the 16 patterns x "
+          "lengths 1..4 x 1..3 towers with a recording single run; list lengths > 4 and non-list "
+          "sequences are not examined",
     rule="n_timesteps == common list length (1 if none); get_step(i) == expected dict for all i; "
          "ValueError at build iff the statement rejects the forcing; in a history the same for "
          "the CURRENT fields after every replacement",
@@ -224,6 +225,58 @@ def reject(lengths, forcing, ts_len, ts, via, why):
                    % (why, cfg.met.n_timesteps, met), key=key)
 
 
+@S.kind("cli")
+def cli(lengths, forcing, ts, n_towers, dry_run):
+    """bldfm.cli.cmd_run on a YAML file of this forcing: one single run per (tower, step), towers in configuration
+    order, steps 0..n-1 in time order (n from the statement); none with --dry-run.  run_bldfm_single is replaced by a
+    recorder in the cli module's namespace (the solver itself is not what this property is about)."""
+    import argparse
+    import yaml
+    import bldfm.cli as C
+    lens = [L for L in lengths.values() if L]
+    n = lens[0] if lens else 1
+    ts_len = None if ts == "none" else n
+    met = _met_dict(lengths, forcing, ts_len, ts)
+    names = ["T%d" % k for k in range(n_towers)]
+    doc = {"domain": {"nx": 8, "ny": 8, "xmax": 80.0, "ymax": 80.0, "nz": 4, "ref_lat": 50.0, "ref_lon": 11.0},
+           "towers": [{"name": nm, "lat": 50.0 + 1e-4 * k, "lon": 11.0, "z_m": 5.0} for k, nm in enumerate(names)],
+           "met": met}
+    path = os.path.abspath("cli_case.yaml")
+    with open(path, "w") as f:
+        yaml.safe_dump(doc, f)
+    calls = []
+
+    def recorder(config, tower, met_index=0, **kw):
+        calls.append((tower.name, met_index))
+        step = config.met.get_step(met_index)
+        return {"timestamp": step["timestamp"], "tower_name": tower.name}
+    saved = (C.run_bldfm_single, C.initialize)
+    C.run_bldfm_single, C.initialize = recorder, (lambda *a, **k: None)
+    try:
+        C.cmd_run(argparse.Namespace(config=path, dry_run=dry_run, plot=False))
+    finally:
+        C.run_bldfm_single, C.initialize = saved
+        os.remove(path)
+    want = [] if dry_run else [(nm, i) for nm in names for i in range(n)]
+    if calls != want:
+        return Verdict(False, "cmd_run performed the single runs %r, statement says %r; met=%r" % (calls[:12], want[:12], met),
+                       key="cli-runs-not-one-per-tower-and-step")
+    return Verdict(True, "cli %d towers x %d steps" % (n_towers, n), nontrivial=not dry_run)
+
+
+def _cli_cases():
+    for mask in range(16):
+        listed = [f for k, f in enumerate(FIELDS) if mask >> k & 1]
+        for L in ((1, 2, 3, 4) if listed else (0,)):
+            for n_towers in (1, 2, 3):
+                forcing = ("ustar", "both", "z0")[(mask + L + n_towers) % 3]
+                if forcing == "z0" and "ustar" in listed:
+                    forcing = "both"
+                yield "cli", dict(lengths={f: L for f in listed}, forcing=forcing, ts=("none", "str", "int")[(mask + L) % 3],
+                                  n_towers=n_towers, dry_run=False)
+    yield "cli", dict(lengths={"mol": 3}, forcing="ustar", ts="none", n_towers=2, dry_run=True)
+
+
 def _stages(forcings=("ustar", "both", "z0")):
     """All valid single stages: 16 patterns x lengths 1..4, forcing and timestamps cycled."""
     out = []
@@ -267,7 +320,7 @@ def _histories(tier, rng):
 def generate(tier, rng):
     import json
     seen = set()
-    for kind, params in itertools.chain(_generate(), _histories(tier, rng)):
+    for kind, params in itertools.chain(_generate(), _histories(tier, rng), _cli_cases()):
         sig = kind + json.dumps(params, sort_keys=True)
         if sig not in seen:        # the enumeration below names some forcings twice
             seen.add(sig)
